@@ -68,7 +68,11 @@ func newCtx() context.Context {
 func outcome(p []string) string {
 	v, err := syntax.EvalWithScope(newCtx(), "", p[0], syntax.SafeStdScope())
 	if err != nil {
-		_ = err.Error() // the hosts print it
+		// the hosts print it (logrus %v, the shell, log.Fatalf): rendering is part of reporting the error,
+		// and it happens inside the timed region, so a blow-up of the message shows as a timeout
+		_ = err.Error()
+		_ = fmt.Sprintf("%v", err)
+		_ = fmt.Sprintf("%+v", err)
 		return "error"
 	}
 	// what the hosts do with a value: print it
